@@ -8,7 +8,7 @@ V = os.path.dirname(os.path.dirname(os.path.abspath(__file__)))
 notes = json.load(open(os.path.join(V, "manifest_notes.json")))
 root_mods = set(re.findall(r"^import (LucidProofs\.\S+)", open(os.path.join(V, "lean/LucidProofs.lean")).read(), re.M))
 out = {}
-for path in sorted(glob.glob(os.path.join(V, "lean/LucidProofs/C*.lean"))):
+for path in sorted(glob.glob(os.path.join(V, "lean/LucidProofs/C*.lean")) + glob.glob(os.path.join(V, "lean/LucidProofs/API.lean"))):
     mod = "LucidProofs." + os.path.basename(path)[:-5]
     if mod not in root_mods:
         continue
